@@ -403,9 +403,9 @@ class TBus(EventBus):
                              for v in (RT.sc['types'].get(type(event).__name__, {}).get('payload') or {}).values())
                 RT.rec('walWrite', p=proc(self), b=b, e=e, ok=False, why='serialise', expected=opaque)
 
-    async def execute_handler(self, event, handler, timeout=None):
+    async def execute_handler(self, event, handler, *a, **kw):       # (extra / renamed parameters are handed through untouched)
         try:
-            return await super().execute_handler(event, handler, timeout=timeout)
+            return await super().execute_handler(event, handler, *a, **kw)
         except RuntimeError as ex:
             # `execute_handler` refuses a handler whose result is no longer pending (it was cancelled by a timeout cleanup
             # while the activation was under way): the activation passes over it
@@ -500,7 +500,7 @@ class TBus(EventBus):
             if task is not None:
                 task.add_done_callback(_never_ran)
 
-    async def process_event(self, event, timeout=None):
+    async def process_event(self, event, *a, **kw):                  # (extra / renamed parameters are handed through untouched)
         rt = RT
         p = proc(self)
         e = eid(event)
@@ -514,7 +514,7 @@ class TBus(EventBus):
         RT.cur_pe.setdefault(task, []).append((b, e))
         ok = False
         try:
-            r = await super().process_event(event, timeout)
+            r = await super().process_event(event, *a, **kw)
             ok = True
             return r
         except GeneratorExit:
@@ -1230,7 +1230,7 @@ async def run_sc(sc):
         except Exception as ex:
             RT.rec('accessors', e=i, changed=False, what=f'harness: {type(ex).__name__}')
     RT.rec('final', events={i: evsnap(e) for i, e in RT.evobj.items()}, buses=[bussnap(b) for b in RT.buses],
-           sem=(svc._get_global_lock()._semaphore._value if svc._get_global_lock()._semaphore else 1),
+           sem=_lock_value(),
            tasks_done=[t.done() for t in tasks])
     for t in tasks:
         t.cancel()
@@ -1271,8 +1271,22 @@ class OrderedWeakSet:
         return iter(live)
 
 
+def _lock_value():
+    """value of the global lock's semaphore at rest (1 = free); wherever the library keeps the lock"""
+    try:
+        getter = getattr(svc, '_get_global_lock', None) or getattr(EventBus, '_get_global_lock')
+        sem = getter()._semaphore
+        return sem._value if sem else 1
+    except Exception:  # noqa: BLE001
+        return 1
+
+
 def reset_globals():
     svc._global_eventbus_lock = None
+    for cls in (EventBus, TBus, TBusA, TBusB):
+        # (a lock kept on the bus classes instead of the module is per scenario as well)
+        if '_global_lock' in cls.__dict__:
+            setattr(cls, '_global_lock', None)
     EventBus.all_instances = OrderedWeakSet()
     hlp.GLOBAL_RETRY_SEMAPHORES.clear()
     if hasattr(hlp, 'GLOBAL_RETRY_SEMAPHORE_LOOPS'):
